@@ -388,7 +388,8 @@ def run(repo, rep):
                 'key (%s, %s) occurs twice in the dict literal; the later entry wins silently' % (en, sn))
 
     # T0: all action methods summarised
-    used = sorted(set(model.table.values()))
+    import re as _re
+    used = sorted(set(model.table.values()) | {m for m in model.sm.methods if _re.match(r'^(ae|dt|ar|aa)_\d+$', m)})
     for meth in used:
         f = model.sm.find_method(meth)
         rep.analysed(f)
